@@ -222,7 +222,11 @@ _DELIMS = " ._-"
 
 
 def diffclass(names):
-    """Document-side class of what distinguishes the names of a pair (no generator knowledge)."""
+    """Document-side class of what distinguishes the names (no generator knowledge); for more than two names, the class of
+    the closest pair."""
+    if len(names) > 2:
+        cs = [diffclass([x, y]) for x, y in itertools.combinations(names, 2)]
+        return next((c for c in cs if c != "other"), "other")
     a, b = names[0], names[1]
     if nfkc(a) == nfkc(b):
         return "nfkc"
